@@ -32,6 +32,7 @@ type sweepResult struct {
 	ledger      map[string]bool
 	notes       map[string]bool
 	skipped     []string
+	contracted  map[*Oblig]bool // obligations of functions whose contract carries the safety flag: always claimed
 }
 
 func isHandlerSig(sig *types.Signature) bool {
@@ -124,7 +125,7 @@ func (eng *Engine) requestCone() []*ssa.Function {
 func ledgerPath(verif, prop string) string { return filepath.Join(verif, "ledger", prop+".json") }
 
 func (eng *Engine) runSweep(prop, verif string, update bool) *sweepResult {
-	sw := &sweepResult{prop: prop, assumed: map[string]bool{}, ledger: map[string]bool{}, notes: map[string]bool{}}
+	sw := &sweepResult{prop: prop, assumed: map[string]bool{}, ledger: map[string]bool{}, notes: map[string]bool{}, contracted: map[*Oblig]bool{}}
 	if data, err := os.ReadFile(ledgerPath(verif, prop)); err == nil {
 		var ids []string
 		json.Unmarshal(data, &ids)
@@ -181,6 +182,9 @@ func (eng *Engine) runSweep(prop, verif string, update bool) *sweepResult {
 		for _, o := range res.Obls {
 			if o.Kind == "safety" {
 				sw.obls = append(sw.obls, o)
+				if fc != nil && fc.Safety {
+					sw.contracted[o] = true
+				}
 			}
 		}
 	}
@@ -205,7 +209,7 @@ func (sw *sweepResult) finish(eng *Engine, verif string, update bool) {
 		}
 	}
 	for _, o := range sw.obls {
-		if sw.ledger[o.ID] {
+		if sw.ledger[o.ID] || sw.contracted[o] {
 			sw.claimed = append(sw.claimed, o)
 		} else if o.Result != "unsat" {
 			sw.undecided = append(sw.undecided, o)
